@@ -259,4 +259,13 @@ def check(repo, rep, tier):
     r_same_result(repo, rep)
     rp.r_tree_factories(repo, rep, 'R12.3')
     r_label_recovery(repo, rep)
+    rep.rule('R12.5', 'the active grammar is the one selected for the process; the rule cache and the id-keyed containers live as long as one call')
+    from ..lints import r_language_setting
+    r_language_setting(repo, rep, 'R12.5', 'the readers pick the rule set by get_global_language() when they are called, so files read there are labelled with the '
+                       'other grammar: derivable nodes come out unknown and left-headed')
+    from ..lints import r_serialisation_complete
+    r_serialisation_complete(repo, rep, 'R12.5', [('depccg/tree.py', 'Tree')],
+                             'parsing.run returns the trees of the worker processes through pickle: every node comes back with the default label / head direction '
+                             'instead of the one the grammar result gave it')
+    rp.r_call_locals(repo, rep, 'R12.5')      # rule_id indexes cache[(ids)]: ids are positions in this call's category table
     rep.floor('agenda push sites', len(m.sites), 5)
